@@ -42,4 +42,15 @@ def reuse_checks(ctx, make, b, b2, site, preds, rel_tol=1e-6):
             return
     b3 = b2.copy()
     x4 = ctx.call(lambda: obj @ b3)  # an equal operand in another array
-    judge(x4, "equal-operand-new-array")
+    if not judge(x4, "equal-operand-new-array"):
+        return
+    # an operand of the same shape and dtype that is smaller by six orders of magnitude, after the larger ones (anything the
+    # object kept from the earlier solves - a warm start, a scale, a tolerance - is now wrong by that factor)
+    b5 = (b2 * 1e-6).astype(b2.dtype)
+    if np.all(np.isfinite(b5)) and float(np.abs(b5).max(initial=0.0)) > 1e-290:
+        fresh2 = ctx.call(make)
+        w5 = None if is_err(fresh2) else ctx.call(lambda: fresh2 @ b5.copy())
+        if w5 is not None and not is_err(w5):
+            want = np.array(w5)
+            scale = max(float(np.linalg.norm(want)), 1e-300)
+            judge(ctx.call(lambda: obj @ b5), "much-smaller-operand-after-larger-ones")
